@@ -597,21 +597,32 @@ def run_case(case):
             if isinstance(val, np.ndarray) and val.dtype.kind == 'f' and val.flags.writeable and k_ not in g.skip:
                 val += 1e-3 * (1.0 + np.abs(val)) * (val != 0)
                 changed = True
+            elif isinstance(val, pd.Series) and val.dtype.kind == 'f' and k_ not in g.skip:
+                val.iloc[:] = val.values + 1e-3 * (1.0 + np.abs(val.values)) * (val.values != 0)
+                changed = True
+            elif isinstance(val, pd.DataFrame) and all(d_.kind == 'f' for d_ in val.dtypes) and k_ not in g.skip:
+                val.iloc[:, :] = val.values + 1e-3 * (1.0 + np.abs(val.values)) * (val.values != 0)
+                changed = True
         return changed
 
     for form in g.forms:
         try:
             a_ref = g.make(form)
-            if any(isinstance(x_, np.random.RandomState) for x_ in a_ref.values()):
+            if any(isinstance(x_, np.random.RandomState) or isinstance(getattr(x_, 'rng', None), np.random.RandomState)
+                   for x_ in a_ref.values()):
                 continue                               # a consumed random stream is documented state
             if not perturb(a_ref):
                 continue
             r_ref = g.call(copy.deepcopy(a_ref))       # reference for the changed contents, computed first
             a1 = g.make(form)
-            g.call(a1)                                 # call with the original contents ...
+            r_first = g.call(a1)                       # call with the original contents ...
+            d_first = digest(r_first)
             perturb(a1)                                # ... change the caller's arrays in place ...
             r_same = g.call(a1)                        # ... and call again with the very same objects
             calls += 3
+            if digest(r_first) != d_first:
+                v('c19-returned-result-changed-later:' + g.name, '%s (%s form): the result of an earlier call changed when '
+                  'the function was called again with other values (it aliases internal state)' % (g.name, form))
             if digest(r_same) != digest(r_ref):
                 v('c19-stale-result-for-same-object:' + g.name, '%s (%s form): after the argument arrays were changed in '
                   'place, calling again with the same objects does not follow the new contents' % (g.name, form))
